@@ -511,6 +511,31 @@ fn reobserve(a: &HashMap<String, String>) -> i32 {
                     }
                 }
             }
+            "script" if e["race"] == true => {
+                // a schedule-dependent observation: run the race again (up to 200 fresh processes) and report the
+                // first observation that is not the nominal one, else the last nominal one
+                let exe = std::env::current_exe().unwrap();
+                'outer: for k in 0..200 {
+                    let mut args = vec!["gen-panic", "--race-child"];
+                    if k % 3 != 2 {
+                        args.push("--blocker");
+                    }
+                    let o = std::process::Command::new(&exe).args(&args).output().unwrap();
+                    for line in String::from_utf8_lossy(&o.stdout).lines() {
+                        if let Ok(x) = serde_json::from_str::<Value>(line) {
+                            let t = x["t"].as_u64().unwrap_or(0);
+                            let nominal = x["script"].as_array().map(|s| s.len() == 1).unwrap_or(false)
+                                || (x["obs"][0]["m"] == json!(100 * t + 4) && x["obs"][1]["m"] == json!(100 * t + 8) && x["status"] == "run");
+                            for key in ["t", "script", "obs", "levels", "sent", "status"] {
+                                e[key] = x[key].clone();
+                            }
+                            if !nominal {
+                                break 'outer;
+                            }
+                        }
+                    }
+                }
+            }
             "script" => {
                 let ops: Vec<String> = serde_json::from_value(e["script"].clone()).unwrap();
                 let t = e["t"].as_u64().unwrap() as usize;
@@ -974,7 +999,8 @@ fn replay_ffiseq_cmd(a: &HashMap<String, String>) -> i32 {
         let v: Value = serde_json::from_str(&line).expect("vector json");
         n += 1;
         steps += v["hist"].as_array().map(|h| h.len() as u64).unwrap_or(0);
-        let (obs, diffs) = ffi::replay_ffiseq(&v);
+        let (obs, diffs) = std::panic::catch_unwind(std::panic::AssertUnwindSafe(|| ffi::replay_ffiseq(&v)))
+            .unwrap_or_else(|_| (json!(null), vec!["the harness panicked while replaying the history (an engine result it cannot work with)".to_string()]));
         if !diffs.is_empty() {
             bad += 1;
             serde_json::to_writer(&mut ow, &json!({"vector": v, "src": "ffi call history", "observed": obs, "diffs": diffs})).unwrap();
